@@ -836,6 +836,10 @@ ND_SUB = {
                       E=[(None, 'none'), ('1', 'ok'), ('1+', 'eval')], I=['1', '2', '1)']),
     'Matrix': dict(make=lambda: MatrixGrader(debug=True, samples=2), conf=False,
                    E=[(None, 'none'), ('[1,2]', 'ok'), ('[1,', 'eval')], I=['[1,2]', '[1,3]', '[1']),
+    # a subgrader WITHOUT debug whose refusals are meant to be silent (explain_validation=None): what a debugging parent
+    # tells it during a hand-off must not outlive that call (a seeded change left a parent-supplied debug flag on it)
+    'StringQuiet': dict(make=lambda: StringGrader(validation_pattern='[a-z]+', explain_validation=None, wrong_msg='no'),
+                        conf=False, E=[(None, 'none'), ('cat', 'ok'), ('Cat9', 'eval')], I=['cat', 'dog', 'c4t']),
 }
 ND_PARENT = {
     ('SingleList', 'Formula'): dict(make=lambda sub, dbg: SingleListGrader(answers=['x+1', '2*x'], subgrader=sub, debug=dbg),
@@ -850,10 +854,14 @@ ND_PARENT = {
                                   I=['(x, 1+x]', '(x, x]', '(x+, 1]']),
     ('Interval', 'Numerical'): dict(make=lambda sub, dbg: IntervalGrader(answers='[1,2)', subgrader=sub, debug=dbg),
                                     I=['[1,2)', '[1,3)', '[1+,2)']),
+    ('SingleList', 'StringQuiet'): dict(make=lambda sub, dbg: SingleListGrader(answers=['cat', 'dog'], subgrader=sub, debug=dbg),
+                                        I=['cat, dog', 'cat, emu', 'c4t, dog']),
+    ('List', 'StringQuiet'): dict(make=lambda sub, dbg: ListGrader(answers=['cat', 'dog'], subgraders=sub, debug=dbg),
+                                  I=[['cat', 'dog'], ['dog', 'emu'], ['c4t', 'dog']]),
 }
 for _k, _v in ND_PARENT.items():
     _v.update(conf=True, E=_IGN, nested_debug=True)
-ND_EVENTS = ['S10', 'S00', 'S22', 'P0', 'P1', 'P2']    # S<expect><input>: direct call of the subgrader; P<input>
+ND_EVENTS = ['S10', 'S00', 'S22', 'S12', 'P0', 'P1', 'P2']    # S<expect><input>: direct call of the subgrader; P<input>
 _REF_N = {}
 
 
